@@ -35,7 +35,7 @@ def zz(n):
 # ------------------------------------------------------------------ generation
 
 
-def gen_padding(rng, w, h, tw, th, exceed=0.12):
+def gen_padding(rng, w, h, tw, th, exceed=0.04):
     if rng.random() < 0.45:
         return {"kind": "exact", "l": rng.choice([0, 0, 1, 2]), "t": rng.choice([0, 0, 1, 2]),
                 "r": rng.choice([0, 0, 1, 2]), "b": rng.choice([0, 0, 1, 2, 3])}
@@ -53,10 +53,10 @@ def gen_padding(rng, w, h, tw, th, exceed=0.12):
 
 
 def gen_new(rng):
-    tw, th = rng.randint(5, 12), rng.randint(4, 9)
+    tw, th = rng.randint(7, 14), rng.randint(5, 10)
     r = rng.random()
-    w = rng.randint(1, 5) if r > 0.08 else tw + 1
-    h = rng.randint(1, 4) if rng.random() > 0.08 else th + rng.randint(1, 2)
+    w = rng.randint(1, 5) if r > 0.03 else tw + 1
+    h = rng.randint(1, 4) if rng.random() > 0.03 else th + rng.randint(1, 2)
     n = rng.choice([1, 2, 2, 3, 4])
     c = {"api": "new", "term_size": [tw, th], "size": [w, h], "frames": n,
          "frame_kind": rng.choice(["text", "block", "gfx"]), "seed": rng.randrange(100),
@@ -69,7 +69,7 @@ def gen_new(rng):
 
 
 def gen_old(rng):
-    tw, th = rng.randint(6, 12), rng.randint(4, 9)
+    tw, th = rng.randint(7, 14), rng.randint(5, 10)
     style = rng.choice(["block", "block", "kitty", "iterm2"])
     n = rng.choice([1, 2, 2, 3, 4])
     w, h = rng.randint(1, 5), rng.randint(1, 3)
@@ -85,16 +85,16 @@ def gen_old(rng):
             return max(1, x + rng.randint(-1, 3))
         if r < 0.65:
             return 0
-        if r < 0.75:
+        if r < 0.69:
             return t + rng.randint(1, 2)
         return -rng.randint(0, 3)
     c["pad"] = [dim(w, tw), dim(h, th)]
     r = rng.random()
-    if r < 0.1:
+    if r < 0.04:
         c["force_size"] = [tw + 1, h]
-    elif r < 0.2:
+    elif r < 0.08:
         c["force_size"] = [w, th + rng.randint(1, 2)]
-    elif r < 0.27:
+    elif r < 0.16:
         c["cells"] = None  # dynamic size
     if style == "kitty":
         c["kitty_version"] = rng.choice([[0, 25, 0], [0, 20, 1], [0, 30, 0], [0, 25, 1]])
@@ -247,7 +247,10 @@ def explain(c, r):
 
 def failure_class(c, r):
     """Stable signature of the class of a failing input."""
-    anim, _ = frames_of(c, r)
+    if c["api"] == "new":
+        anim = bool(c.get("animate", True)) and c["frames"] > 1
+    else:
+        anim = bool(c.get("animate", True)) and c["img"]["n_frames"] > 1
     if c["api"] == "new":
         p = c["padding"]
         return ["new", "anim" if anim else "still", c["frame_kind"], p["kind"], c.get("fill"), bool(c.get("tty", True))]
@@ -271,8 +274,7 @@ def run(ctx):
     impl = core.run_impl_parallel("impl_c06.py", cases)
     terms, owner = [], []
     failures, mismatches, errors = [], [], []
-    hist = {"api": {}, "kind": {}, "style": {}, "tty": {}, "frames": {}, "loops": {}, "raised": 0, "scroll_start_rows": 0,
-            "padded_v": 0, "cache": {}}
+    hist = {"api": {}, "kind": {}, "style": {}, "tty": {}, "frames": {}, "loops": {}, "raised": 0, "accepted": 0, "cache": {}}
     distinct = set()
     for i, (c, r) in enumerate(zip(cases, impl)):
         hist["api"][c["api"]] = hist["api"].get(c["api"], 0) + 1
@@ -299,6 +301,7 @@ def run(ctx):
         ck = str(c.get("cache", c.get("cached", "default")))
         hist["cache"][ck] = hist["cache"].get(ck, 0) + 1
         hist["raised"] += r["raised"] == 1
+        hist["accepted"] += r["raised"] == 0
         if r["raised"] == 0 and anim and len(frames) >= 2:
             distinct.add(core.sig([c.get("padding", c.get("pad")), c.get("size", c.get("cells")), st, c["term_size"],
                                    len(frames), c.get("tty", True), c.get("args"), c.get("term"), c.get("kitty_version")]))
@@ -329,7 +332,7 @@ def run(ctx):
                 "fills ' ' '*' '', check_size / allow_scroll / hide_cursor / animate flags, clearing override; old API Block / Kitty (LINES, "
                 "WHOLE, versions around 0.25.0, mix) / ITerm2 (LINES, WHOLE, wezterm / konsole / iterm2, mix) images from synthetic GIFs of 1..4 "
                 "frames, repeat 1..3, cached True/False/int, pad sizes around the image size / zero / relative / exceeding, 9 alignments in both "
-                "spellings, dynamic and forced sizes; terminals 5..12 x 4..9; every accepted case that fits the screen is executed from start rows "
+                "spellings, dynamic and forced sizes; terminals 7..14 x 5..10; every accepted case that fits the screen is executed from start rows "
                 "0, H/2 and H-1. Non-trivial: an accepted animation of >= 2 drawn frames; distinct by (padding, size, style, terminal, frames, tty, args).",
         "samples": [describe(c) for c in cases[:2] + cases[16:18] + cases[-2:]],
         "histogram": hist,
